@@ -4,6 +4,7 @@ import (
 	"bufio"
 	"encoding/json"
 	"fmt"
+	"math/big"
 	"os"
 	"os/exec"
 	"runtime"
@@ -26,7 +27,23 @@ var c13Configs = []c13Config{{2, 2}, {3, 2}, {3, 3}, {4, 3}}
 
 var c13CtlFaults = []string{"pass", "lost", "error-reply", "duplicate"}
 var c13ContribFaults = []string{"pass", "lost", "error-reply", "share-random", "share-for-other-id", "commitment-altered", "vector-short", "vector-long", "vector-empty", "share-zero", "duplicate", "resend-commitment-altered", "resend-vector-short", "resend-vector-long", "resend-vector-empty"}
-var c13ReplyFaults = []string{"pass", "lost", "share-random", "share-for-other-id", "commitment-altered", "vector-short", "vector-long", "vector-empty", "share-zero"}
+var c13ReplyFaults = []string{"pass", "lost", "share-random", "share-for-other-id", "commitment-altered", "vector-short", "vector-long", "vector-empty", "share-zero", "share-offset-compensated"}
+
+// c13Negate returns -d in the scalar field of BLS12-381.
+func c13Negate(d *bls.SecretKey) *bls.SecretKey {
+	order, _ := new(big.Int).SetString("73eda753299d7d483339d80809a1d80553bda402fffe5bfeffffffff00000001", 16)
+	v := new(big.Int).SetBytes(d.Serialize())
+	v.Sub(order, v)
+	v.Mod(v, order)
+	b := v.Bytes()
+	buf := make([]byte, 32)
+	copy(buf[32-len(b):], b)
+	var n bls.SecretKey
+	if err := n.Deserialize(buf); err != nil {
+		panic(err)
+	}
+	return &n
+}
 
 // tamper applies a contribution fault; secret/vvec are for recipient `to`; ids are all participant ids.
 func c13Tamper(fault string, to uint64, ids []uint64, t int, secret *bls.SecretKey, vvec *[]bls.PublicKey) {
@@ -159,7 +176,17 @@ func c13Child(cfg c13Config, bound int, skip map[string]bool) c13Result {
 				return rig.Deliver
 			}
 		}
+		// share-offset-compensated: this reply's share is raised by a random d, and the next reply to the same instance is
+		// lowered by d (one departure from the default, two invalid replies whose errors cancel in any sum).
+		pendingOffset := map[uint64]*bls.SecretKey{}
 		c.ContributeReply = func(from, to uint64, secret *bls.SecretKey, vvec *[]bls.PublicKey) rig.Action {
+			if d := pendingOffset[from]; d != nil {
+				delete(pendingOffset, from)
+				neg := c13Negate(d)
+				secret.Add(neg)
+				applied = append(applied, fmt.Sprintf("contribute-reply %d->%d: share lowered by the offset", to, from))
+				return rig.Deliver
+			}
 			k := ch.Choose(fmt.Sprintf("contribute-reply %d->%d", to, from), len(c13ReplyFaults))
 			f := c13ReplyFaults[k]
 			if f != "pass" {
@@ -171,6 +198,12 @@ func c13Child(cfg c13Config, bound int, skip map[string]bool) c13Result {
 				return rig.Deliver
 			case "lost":
 				return rig.Drop
+			case "share-offset-compensated":
+				var d bls.SecretKey
+				d.SetByCSPRNG()
+				secret.Add(&d)
+				pendingOffset[from] = &d
+				return rig.Deliver
 			default:
 				// The reply is meant for the initiator of the swap (from).
 				c13Tamper(f, from, ids, cfg.T, secret, vvec)
@@ -383,7 +416,7 @@ func C13(tier string) int {
 	run.Coverage = map[string]any{
 		"evaluations":         execs,
 		"distinct_nontrivial": len(outcomes),
-		"rule":                fmt.Sprintf("for (n,t) in {(2,2),(3,2),(3,3),(4,3)} every execution of a full generation on real instances with at most %d faults, where every prepare and execute message (lost, error reply, duplicate), every contribution request (lost, error reply, random share, contribution made for another identifier, altered commitment, vector one entry short, vector one entry long with a consistent share, vector with no entries, all-zero share, duplicate, and the genuine contribution followed by a second copy with the same share and an altered, short, long or empty vector) and every contribution reply (lost, random share, other identifier, altered commitment, short, long, empty, zero share) is a choice point; run in worker processes so that a crash is observed; oracle: after a rejecting fault the client gets an error and no instance holds the account; duplicates are all-or-nothing; no worker dies; distinct = (config, outcome) pairs", bound),
+		"rule":                fmt.Sprintf("for (n,t) in {(2,2),(3,2),(3,3),(4,3)} every execution of a full generation on real instances with at most %d faults, where every prepare and execute message (lost, error reply, duplicate), every contribution request (lost, error reply, random share, contribution made for another identifier, altered commitment, vector one entry short, vector one entry long with a consistent share, vector with no entries, all-zero share, duplicate, and the genuine contribution followed by a second copy with the same share and an altered, short, long or empty vector) and every contribution reply (lost, random share, other identifier, altered commitment, short, long, empty, zero share, and a share raised by a random offset with the next reply to the same instance lowered by it) is a choice point; run in worker processes so that a crash is observed; oracle: after a rejecting fault the client gets an error and no instance holds the account; duplicates are all-or-nothing; no worker dies; distinct = (config, outcome) pairs", bound),
 		"samples":             samples.List(),
 		"exhaustive":          true,
 		"deviation_bound":     bound,
